@@ -212,7 +212,8 @@ func genResults(r *kit.Rng, n int, inDomain bool, s *kit.Summary) []res {
 	latMode := r.Pick(7)
 	s.Count("lat_mode:" + []string{"mixed", "mixed", "mixed", "all_zero", "zero_first", "huge", "ms"}[latMode])
 	codeMode := r.Pick(4)
-	errMode := r.Pick(4)
+	errMode := r.Pick(5)
+	manyDistinct := 0 // errMode 4: a distinct text per failed request (ephemeral port / request id in the message)
 	for i := range out {
 		var lat int64
 		switch latMode {
@@ -283,11 +284,19 @@ func genResults(r *kit.Rng, n int, inDomain bool, s *kit.Summary) []res {
 			if r.Chance(0.5) {
 				out[i].Err = errPool[r.Pick(3)]
 			}
+		case 4:
+			if r.Chance(0.6) {
+				out[i].Err = fmt.Sprintf("dial tcp 10.0.0.1:%d->10.0.0.2:80: connect: connection refused", 30000+r.Pick(400))
+				manyDistinct++
+			}
 		default:
 			if r.Chance(0.3) {
 				out[i].Err = errPool[r.Pick(len(errPool))]
 			}
 		}
+	}
+	if manyDistinct > 64 {
+		s.Count("errors:more_than_64_distinct_candidates")
 	}
 	return out
 }
@@ -427,9 +436,14 @@ func oracle(s *kit.Summary, h history, m *vegeta.Metrics) {
 	if int64(m.Requests) != t.n {
 		bad("metrics_requests", "request count differs from the number of results", fmt.Sprint(t.n), fmt.Sprint(m.Requests), nil)
 	}
-	okCodes := len(m.StatusCodes) == len(t.codes)
+	okCodes := true
 	for k, v := range t.codes {
 		if m.StatusCodes[strconv.Itoa(k)] != v {
+			okCodes = false
+		}
+	}
+	for k, v := range m.StatusCodes { // entries for codes that did not occur may only carry a zero
+		if n, err := strconv.Atoi(k); v != 0 && (err != nil || t.codes[n] != v) {
 			okCodes = false
 		}
 	}
@@ -569,7 +583,7 @@ func checkHistory(r *kit.Rng, s *kit.Summary, st *kit.Stream, h history, dom boo
 	// closing repeatedly / in between does not change the final values
 	plain := history{Results: h.Results}
 	_, linePlain := runImpl(plain)
-	if line != linePlain {
+	if canonSet(line) != canonSet(linePlain) { // the error texts are a set: their order is not compared
 		s.Violate(kit.Violation{Kind: "close_changes_values", What: "intermediate Close calls change the final values", Input: h, Expected: linePlain, Observed: line})
 	}
 	// any order of addition gives the same report (errors as a set)
@@ -857,7 +871,7 @@ func reportCommand(c *run.Ctx, r *kit.Rng, s *kit.Summary) {
 		}
 		// the library-level values for the same results, added in file order and closed once
 		_, lib := runImpl(j.h)
-		if jl != lib {
+		if canonSet(jl) != canonSet(lib) {
 			s.Violate(kit.Violation{Kind: "report_json_differs", What: "JSON report of the report command differs from the library's closed Metrics",
 				Input: j.h, Expected: lib, Observed: jl})
 		}
@@ -889,7 +903,7 @@ func reportCommand(c *run.Ctx, r *kit.Rng, s *kit.Summary) {
 		if lm == nil || libText == nil {
 			continue
 		}
-		if !bytes.Equal(text, libText) {
+		if !sameTextModuloErrorOrder(text, libText) {
 			s.Violate(kit.Violation{Kind: "report_text_differs", What: "text report of the report command differs from the library's text reporter on the same results",
 				Input: j.h, Expected: string(libText), Observed: string(text)})
 		}
